@@ -76,7 +76,41 @@ def generate_core(rng, tier):
     cases += batch(ops, 'chk', 200)
     return cases
 
+def vendor_stream(rng, tier):
+    """the TTL inside a Vendor-Specific attribute, systematically: every value length 0..4 (and a few longer) x zero /
+    one / other values x the TTL as only, first, middle, last sub-attribute x with and without a stray octet x with
+    and without other attributes before it -- the shape of theorem C13_vendor_ttl (operation vttl)"""
+    ops = []
+    vals = []
+    for ln in (0, 1, 2, 3, 4, 5, 8):
+        vals.append(bytes(ln))
+        if ln:
+            vals.append(bytes(ln - 1) + b'\x01')
+            vals.append(bytes(ln - 1) + b'\x02')
+            vals.append(b'\x01' + bytes(ln - 1))
+            vals.append(bytes(rng.randrange(256) for _ in range(ln)))
+    others = [(2, b'\x05'), (3, b''), (255, b'\x00\x00\x00\x09'), (7, bytes(6))]
+    for t0, t1, vb in ((27262, 1, '00006a7e'), (311, 2, '00000137'), (27262, 255, '00006a7e')):
+        for v in vals:
+            for pos in ('only', 'first', 'middle', 'last', 'twice'):
+                o = [x for x in others if x[0] != t1]
+                rng.shuffle(o)
+                k = rng.randrange(1, len(o) + 1)
+                a, b = o[:k], o[k:k + rng.randrange(0, 2) + 1]
+                if pos == 'only': subs = [(t1, v)]
+                elif pos == 'first': subs = [(t1, v)] + a
+                elif pos == 'middle': subs = a + [(t1, v)] + (b or [(9, b'\x01')])
+                elif pos == 'last': subs = a + [(t1, v)]
+                else: subs = a + [(t1, v), (t1, b'\x00\x00\x00\x07')]
+                for tr in ('-', '01') if pos in ('last', 'only') else ('-',):
+                    pre = rng.choice([[], [(1, b'ab')], [(26, bytes.fromhex('00000009') + b'\x01\x03\x00')], [(26, b'\x00\x00')], [(4, bytes(4)), (26, bytes.fromhex('0000013a0106000000ff') if t0 != 314 else b'')]])
+                    post = rng.choice([[], [(31, b'x')], [(26, bytes.fromhex(vb) + bytes([t1, 6, 0, 0, 0, 3]))]])
+                    ops.append('op vttl %d %d %s %s P %s S %s Q %s' % (t0, t1, vb, tr,
+                               ' '.join('%d:%s' % (t, hx(x)) for t, x in pre), ' '.join('%d:%s' % (t, hx(x)) for t, x in subs),
+                               ' '.join('%d:%s' % (t, hx(x)) for t, x in post)))
+    return batch(ops, 'vttl', 300)
+
 def generate(rng, tier):
     """the component-level cases, then the clause seen through the whole request/reply pipeline"""
     import pipeline, focus
-    return generate_core(rng, tier) + focus.loop_cases(rng, 240 if tier == 'thorough' else 24) + focus.reply_ttl_cases(rng, 300 if tier == 'thorough' else 24) + pipeline.cases(rng, 300 if tier == 'thorough' else 20, nops=10)
+    return generate_core(rng, tier) + vendor_stream(rng, tier) + focus.loop_cases(rng, 240 if tier == 'thorough' else 24) + focus.reply_ttl_cases(rng, 300 if tier == 'thorough' else 24) + pipeline.cases(rng, 300 if tier == 'thorough' else 20, nops=10)
